@@ -33,7 +33,9 @@ var paramTypes = map[string]string{
 }
 
 type tr struct {
-	bad []string
+	bad   []string
+	state string // name of the header map the function updates: "buf" (bool functions) or "resHdrs" (void functions)
+	void  bool   // the function returns nothing: `return` and the end of the body yield the state
 }
 
 func (t *tr) unsupported(n ast.Node) string {
@@ -55,6 +57,9 @@ func (t *tr) expr(e ast.Expr) string {
 	case *ast.BasicLit:
 		if e.Kind == token.INT {
 			return e.Value
+		}
+		if e.Kind == token.STRING && e.Value == `""` {
+			return "([] : Bytes)"
 		}
 	case *ast.UnaryExpr:
 		if e.Op == token.NOT {
@@ -111,25 +116,31 @@ func (t *tr) expr(e ast.Expr) string {
 	return t.unsupported(e)
 }
 
-func isBuf(e ast.Expr) bool {
+func (t *tr) isState(e ast.Expr) bool {
 	id, ok := e.(*ast.Ident)
-	return ok && id.Name == "buf"
+	return ok && id.Name == t.state
 }
 
 // stmts translates a statement list that must end in a return on every path.
 func (t *tr) stmts(list []ast.Stmt, ind string) string {
 	if len(list) == 0 {
+		if t.void {
+			return t.state
+		}
 		t.bad = append(t.bad, "<falls off the end>")
 		return `(GoRt.unsupported "<falls off the end>")`
 	}
 	s, rest := list[0], list[1:]
 	switch s := s.(type) {
 	case *ast.ReturnStmt:
-		if len(s.Results) == 1 {
+		if t.void && len(s.Results) == 0 {
+			return t.state
+		}
+		if !t.void && len(s.Results) == 1 {
 			if id, ok := s.Results[0].(*ast.Ident); ok {
 				switch id.Name {
 				case "true":
-					return "some buf"
+					return "some " + t.state
 				case "false":
 					return "none"
 				}
@@ -138,9 +149,13 @@ func (t *tr) stmts(list []ast.Stmt, ind string) string {
 	case *ast.AssignStmt:
 		// buf[K] = V
 		if s.Tok == token.ASSIGN && len(s.Lhs) == 1 && len(s.Rhs) == 1 {
-			if ix, ok := s.Lhs[0].(*ast.IndexExpr); ok && isBuf(ix.X) {
-				return "let buf := Buf.put buf " + t.expr(ix.Index) + " " + t.expr(s.Rhs[0]) + "\n" + ind + t.stmts(rest, ind)
+			if ix, ok := s.Lhs[0].(*ast.IndexExpr); ok && t.isState(ix.X) {
+				return "let " + t.state + " := HdrMap.assign " + t.state + " " + t.expr(ix.Index) + " " + t.expr(s.Rhs[0]) + "\n" + ind + t.stmts(rest, ind)
 			}
+		}
+		if s.Tok == token.DEFINE && len(s.Lhs) == 1 && len(s.Rhs) == 1 && t.isState(s.Lhs[0]) && exprText(s.Rhs[0]) == "w.Header()" {
+			// `resHdrs := w.Header()`: the writer's header map is the function's input state
+			return t.stmts(rest, ind)
 		}
 		if s.Tok == token.DEFINE && len(s.Rhs) == 1 {
 			var names []string
@@ -165,7 +180,7 @@ func (t *tr) stmts(list []ast.Stmt, ind string) string {
 					projs = []string{".1", ".2"}
 				}
 			case *ast.IndexExpr:
-				if len(names) == 2 && !isBuf(r.X) {
+				if len(names) == 2 && !t.isState(r.X) {
 					rhs = "GoRt.lookup " + t.expr(r.X) + " " + t.expr(r.Index)
 					projs = []string{".1", ".2"}
 				}
@@ -178,6 +193,49 @@ func (t *tr) stmts(list []ast.Stmt, ind string) string {
 					}
 				}
 				return out + t.stmts(rest, ind)
+			}
+		}
+	case *ast.ExprStmt:
+		if c, ok := s.X.(*ast.CallExpr); ok && len(c.Args) == 2 {
+			if sel, ok := c.Fun.(*ast.SelectorExpr); ok && t.isState(sel.X) && (sel.Sel.Name == "Add" || sel.Sel.Name == "Set") {
+				op := map[string]string{"Add": "HdrMap.add", "Set": "HdrMap.set"}[sel.Sel.Name]
+				return "let " + t.state + " := " + op + " " + t.state + " " + t.expr(c.Args[0]) + " " + t.expr(c.Args[1]) + "\n" + ind + t.stmts(rest, ind)
+			}
+		}
+	case *ast.SwitchStmt:
+		// tagless switch without fallthrough: an if-chain
+		if s.Init == nil && s.Tag == nil {
+			var chain ast.Stmt
+			ok := true
+			for i := len(s.Body.List) - 1; i >= 0; i-- {
+				cc := s.Body.List[i].(*ast.CaseClause)
+				for _, st := range cc.Body {
+					if b, isB := st.(*ast.BranchStmt); isB && b.Tok != token.BREAK {
+						ok = false
+					}
+				}
+				if cc.List == nil { // default
+					if i != len(s.Body.List)-1 {
+						ok = false
+					}
+					chain = &ast.BlockStmt{List: cc.Body}
+					continue
+				}
+				if len(cc.List) != 1 {
+					ok = false
+					break
+				}
+				is := &ast.IfStmt{Cond: cc.List[0], Body: &ast.BlockStmt{List: cc.Body}}
+				if chain != nil {
+					is.Else = chain
+				}
+				chain = is
+			}
+			if ok && chain != nil {
+				if blk, isBlk := chain.(*ast.BlockStmt); isBlk {
+					return t.stmts(append(append([]ast.Stmt{}, blk.List...), rest...), ind)
+				}
+				return t.stmts(append([]ast.Stmt{chain}, rest...), ind)
 			}
 		}
 	case *ast.IfStmt:
@@ -204,7 +262,7 @@ func translatePipeline(pkgs map[string]*pkgInfo) string {
 	var b strings.Builder
 	b.WriteString("/- GENERATED by /verif/harness/extract (translate.go) from the working tree of /repo. Do not edit. -/\n")
 	b.WriteString("import CorsVerif.Model.GoRt\n\nnamespace Cors.Gen.Pipeline\nopen Cors Cors.Gen Cors.Serve\n\n")
-	want := []string{"processOriginForPreflight", "processACRPN", "processACRM", "processACRH"}
+	want := []string{"processOriginForPreflight", "processACRPN", "processACRM", "processACRH", "handleNonCORS", "handleCORSActual"}
 	for _, w := range want {
 		var fd *ast.FuncDecl
 		if p != nil {
@@ -220,13 +278,22 @@ func translatePipeline(pkgs map[string]*pkgInfo) string {
 			fmt.Fprintf(&b, "/-- `%s` is missing from the source. -/\ndef %s : Unit := ()\n\n", w, w)
 			continue
 		}
-		t := &tr{}
+		t := &tr{state: "buf"}
+		if fd.Type.Results == nil || len(fd.Type.Results.List) == 0 {
+			t.void, t.state = true, "resHdrs"
+		}
 		params := "(icfg : ICfg)"
 		for _, fl := range fd.Type.Params.List {
-			ty, ok := paramTypes[exprText(fl.Type)]
+			tyText := exprText(fl.Type)
+			ty, ok := paramTypes[tyText]
+			if tyText == "http.ResponseWriter" && t.void {
+				// the writer is used through `resHdrs := w.Header()` only
+				params += " (resHdrs : HdrMap)"
+				continue
+			}
 			if !ok {
 				ty = "Unit"
-				t.bad = append(t.bad, "parameter type "+exprText(fl.Type))
+				t.bad = append(t.bad, "parameter type "+tyText)
 			}
 			for _, n := range fl.Names {
 				name := n.Name
@@ -238,8 +305,12 @@ func translatePipeline(pkgs map[string]*pkgInfo) string {
 			}
 		}
 		body := t.stmts(fd.Body.List, "  ")
+		res := "Option Buf"
+		if t.void {
+			res = "HdrMap"
+		}
 		fmt.Fprintf(&b, "/-- `%s`, translated from: %s -/\n", w, strings.ReplaceAll(codeText(fd.Body), "-/", "- /"))
-		fmt.Fprintf(&b, "def %s %s : Option Buf :=\n  %s\n\n", w, params, body)
+		fmt.Fprintf(&b, "def %s %s : %s :=\n  %s\n\n", w, params, res, body)
 		if len(t.bad) > 0 {
 			fmt.Fprintf(&b, "/- UNSUPPORTED in %s: %s -/\n\n", w, strings.ReplaceAll(strings.Join(t.bad, " ;; "), "-/", "- /"))
 		}
